@@ -506,6 +506,38 @@ def r6(ctx, fs):
                         node=s.node, expect='if (!trail.empty()) trail.back().%s.insert(%s)' % (mirror, show(arg)))
 
 
+def agenda_restore(ctx, fs, rid='C08.R6'):
+    """solver::pop undoes the agenda bookkeeping of the popped level exactly: every flaw solved at that level comes back, every flaw that appeared at that level goes,
+    every saved cost is written back - all three unconditionally - and one trail layer is removed (shared by C08.R6 and C03.R7)."""
+    f = fs.fn('ratio::solver::pop')
+    env = LocalEnv(f)
+    want = {'solved_flaws': ('insert', 'a flaw solved at the popped level is open again'), 'new_flaws': ('erase', 'a flaw that appeared at the popped level no longer exists')}
+    seen = {}
+    for n in f.nodes():
+        if n.get('k') != 'CXXForRangeStmt':
+            continue
+        rng = canon(n['slots']['range'], env, subst=False)
+        for fld, (op, why) in want.items():
+            if isinstance(rng, tuple) and rng[0] == '.' and rng[2] == fld and 'ratio::solver::trail' in show(rng).replace('solver::trail', 'ratio::solver::trail') and 'back' in show(rng):
+                v = n['slots']['var'].get('name')
+                sts = [st for st in _stores_in(n['slots']['body']) if st.fields and st.fields[0] == 'ratio::solver::flaws']
+                cond = any(m.get('k') in ('IfStmt', 'ContinueStmt', 'BreakStmt', 'ConditionalOperator', 'ReturnStmt') for m in walk(n['slots']['body']))
+                ok = len(sts) == 1 and sts[0].how == op and sts[0].value and canon(sts[0].value[0], env, subst=False) == v and not cond
+                seen[fld] = ok
+                ctx.instance(rid, [f.id, 'agenda', fld], {'loop_over': 'trail.back().' + fld, 'operation': [st.how for st in sts], 'unconditional': not cond, 'ok': ok})
+                if not ok:
+                    ctx.finding(rid, f.id, 'agenda:' + fld, 'solver::pop must flaws.%s(f) for EVERY f of trail.back().%s, unconditionally (%s); otherwise solve() can stop with an empty agenda while an active flaw '
+                                'has no resolver, or keep a flaw that no longer exists' % (op, fld, why), node=n)
+    for fld in want:
+        if fld not in seen:
+            ctx.finding(rid, f.id, 'agenda:' + fld, 'solver::pop does not iterate trail.back().%s' % fld, loc=f.loc)
+    pops = [st for st in effects.stores(f) if st.fields and st.fields[0] == 'ratio::solver::trail' and st.how == 'pop_back' and st.target is not None and canon(st.target, env, subst=False) == 'ratio::solver::trail']
+    cond = [st for st in pops if any(a.get('k') in ('IfStmt', 'CXXForRangeStmt', 'ForStmt', 'WhileStmt', 'DoStmt') for a in f.ancestors(st.node))]
+    ctx.instance(rid, [f.id, 'agenda', 'layer'], {'trail_pop_back': len(pops), 'conditional': len(cond)})
+    if len(pops) != 1 or cond:
+        ctx.finding(rid, f.id, 'agenda:layer', 'solver::pop removes %d trail layers (%d conditionally); exactly one per pop' % (len(pops), len(cond)), loc=f.loc)
+
+
 def run(ctx):
     fs = ctx.facts('P')
     r1(ctx, fs)
@@ -513,3 +545,4 @@ def run(ctx):
     r4(ctx, fs)
     r5(ctx, fs)
     r6(ctx, fs)
+    agenda_restore(ctx, fs)
